@@ -951,7 +951,7 @@ def c02(tier):
 
 @check("C07")
 def c07(tier):
-    return broker_check("C07", tier, [("SubsSpec", "cover", 5, 6, "mockSuccess"), ("SubsSpec", "paths", 2, 3, "mockSuccess"), ("SubsSpec", "cover", 4, 5, "mockSuccess", 1), ("SubsLastSpec", "paths", 5, 6, "mockSuccess"), ("SubsBigSpec", "paths", 3, 4, "mockSuccess"), ("Sess1LastSpec", "paths", 8, 9, "mockSuccess")], {"C07", "C01", "C08"},
+    return broker_check("C07", tier, [("SubsSpec", "cover", 5, 6, "mockSuccess"), ("SubsSpec", "paths", 2, 3, "mockSuccess"), ("SubsSpec", "cover", 4, 5, "mockSuccess", 1), ("SubsLastSpec", "paths", 5, 6, "mockSuccess"), ("SubsBigSpec", "paths", 3, 4, "mockSuccess"), ("Sess1LastSpec", "paths", 8, 9, "mockSuccess"), ("UnsubRaceSpec", "paths", 5, 6, "mockSuccess")], {"C07", "C01", "C08"},
                         "configuration subs: SUBSCRIBE requests with 1..9 filters incl. invalid filters and QoS 3, two packet ids, UNSUBSCRIBE lists of 1..9, "
                         "probe publishes from a second client; SUBACK/UNSUBACK bytes and subsequent deliveries compared. Concurrent regime: recorded runs with "
                         "subscription churn under load, every handled SUBSCRIBE / UNSUBSCRIBE answered exactly once with its identifier (AnswerTrace).", frag_item=1,
